@@ -252,7 +252,14 @@ func paramMappings(params map[string]spec.Parameter) (map[string]map[string]stri
 	// In order to avoid unstable generation, adopt same naming convention
 	// for all parameters with same name across locations.
 	seenIDs := make(map[string]interface{}, len(params))
-	for id, p := range params {
+	// iterate in a stable order: the name given to a parameter depends on the ones seen before it
+	ids := make([]string, 0, len(params))
+	for id := range params {
+		ids = append(ids, id)
+	}
+	sort.Strings(ids)
+	for _, id := range ids {
+		p := params[id]
 		debugLog("paramMappings: params: id=%s, In=%q, Name=%q", id, p.In, p.Name)
 		// guard against possible validation failures and/or skipped issues
 		if _, found := idMapping[p.In]; !found {
